@@ -163,6 +163,28 @@ func (g *Gen) Schema(depth int) M {
 			if g.p(0.2) { // siblings of a $ref (kept by the loader)
 				s["description"] = "sibling"
 			}
+			if depth > 0 && g.p(0.25) {
+				// schema-bearing siblings of a $ref: the loader keeps them and the analyzer must still index what is below
+				g.hit("ref:with-schema-siblings")
+				switch g.n(5) {
+				case 0:
+					s["properties"] = M{g.name(): g.Schema(depth - 1)}
+				case 1:
+					s["items"] = g.Schema(depth - 1)
+				case 2:
+					s["allOf"] = []any{g.Schema(depth - 1)}
+				case 3:
+					s["additionalProperties"] = g.Schema(depth - 1)
+				default:
+					s["not"] = g.Schema(depth - 1)
+				}
+				if g.p(0.3) {
+					s["pattern"] = g.pick(patterns)
+				}
+				if g.p(0.3) {
+					s["enum"] = g.enumVals()
+				}
+			}
 			return s
 		}
 	}
